@@ -1179,6 +1179,8 @@ package keyvalue
 //@   ensures "same-file" [C01] implies(rnValid(oldname, newname) && old(rnSrcFile(fs, oldname)) && oldname == newname, err == nil && memSame(fs))
 //@   ensures "dest-is-dir" [C01 C03 C05] implies(rnValid(oldname, newname) && old(kvHas(fs, oldname)) && old(kvHas(fs, newname)) && old(memIsDir(fs, newname)) && !(oldname == newname && !old(memIsDir(fs, oldname))),
 //@                     linkErr(err, oldname, newname) && errIs(err, hackpadfs.ErrExist) && memSame(fs))
+//@   ensures "dir-onto-existing" [C01 C03 C05] implies(rnValid(oldname, newname) && oldname != "." && old(rnSrcDir(fs, oldname)) && old(kvHas(fs, newname)),
+//@                     linkErr(err, oldname, newname) && errIs(err, hackpadfs.ErrExist) && memSame(fs))
 //@   ensures "into-subtree" [C01 C03 C05] implies(rnValid(oldname, newname) && oldname != "." && old(rnSrcDir(fs, oldname)) && !old(kvHas(fs, newname)) && hasPrefix(newname, oldname + "/"),
 //@                     linkErr(err, oldname, newname) && errIs(err, hackpadfs.ErrInvalid) && memSame(fs))
 //@   ensures "no-parent" [C01 C03 C05] implies(rnValid(oldname, newname) && oldname != "." && old(kvHas(fs, oldname)) && oldname != newname && !old(kvHas(fs, newname)) && !hasPrefix(newname, oldname + "/") && !old(kvHas(fs, pdir(newname))),
@@ -1194,3 +1196,45 @@ package keyvalue
 //@   ensures "mem-world" world() == old(world())
 //@   ensures "inv" fsMem(fs)
 //@   nopanic
+
+// ---- thin implementations of contracted interfaces: executed in place wherever the receiver type is known ----
+//@ func (b *BaseFileRecord) ReadDirNames() (names []string, err error)
+//@   assumed
+//@   requires b != nil
+//@   ensures "as-interface" names == ret("keyvalue.(FileRecord).ReadDirNames", 0, FileRecord(b)) && err == ret("keyvalue.(FileRecord).ReadDirNames", 1, FileRecord(b))
+//@ func (b *BaseFileRecord) Size() (n int64)
+//@   inline
+//@ func (b *BaseFileRecord) Sys() (v interface{})
+//@   inline
+//@ func (fs *FS) Open(name string) (f hackpadfs.File, err error)
+//@   inline
+//@ func (d *dirEntry) Name() (name string)
+//@   inline
+//@ func (f *fileData) ModTime() (t time.Time)
+//@   inline
+//@ func (r *readOnlyFile) Chmod(mode hackpadfs.FileMode) (err error)
+//@   inline
+//@ func (r *readOnlyFile) ReadDir(n int) (entries []hackpadfs.DirEntry, err error)
+//@   inline
+//@ func (w *writeOnlyFile) Chmod(mode hackpadfs.FileMode) (err error)
+//@   inline
+//@ func (w *writeOnlyFile) Close() (err error)
+//@   inline
+//@ func (w *writeOnlyFile) Seek(offset int64, whence int) (pos int64, err error)
+//@   inline
+//@ func (w *writeOnlyFile) Stat() (info hackpadfs.FileInfo, err error)
+//@   inline
+//@ func (w *writeOnlyFile) Truncate(size int64) (err error)
+//@   inline
+//@ func (w *writeOnlyFile) Write(p []byte) (n int, err error)
+//@   inline
+//@ func (w *writeOnlyFile) WriteAt(p []byte, off int64) (n int, err error)
+//@   inline
+//@ func (o OpHandlerFunc) Handle(txn Transaction, result OpResult) (err error)
+//@   inline
+//@ func (f fileInfo) IsDir() (dir bool)
+//@   inline
+//@ func (f fileInfo) Mode() (mode hackpadfs.FileMode)
+//@   inline
+//@ func (f fileInfo) Name() (name string)
+//@   inline
